@@ -71,21 +71,24 @@ def native_programs():
         "u4/2": [clause(C("u4", X, Y), or_(then(call(C("nat", X)), call(C("n", Y))), call(C("=", Y, A("e")))))],
         "u5/2": [clause(C("u5", X, Y), conj(call(C("n", X)), not_(call(C("nat", I(9)))), call(C("once", C("nat", Y)))))],
     }
-    rows = [{"args": [I(1)], "nv": 0}, {"args": [C("f", V(0))], "nv": 1}, {"args": [I(3)], "nv": 0}]
+    rows_ng = [{"args": [I(1)], "nv": 0}, {"args": [C("f", V(0))], "nv": 1}, {"args": [I(3)], "nv": 0}]
+    # (ground rows as well: findall over instances that are not ground is left open by the specification)
+    rows_g = [{"args": [I(1)], "nv": 0}, {"args": [C("f", A("a"))], "nv": 0}, {"args": [I(3)], "nv": 0}]
     scns = []
-    for gi, (g, qnv) in enumerate([(C("u1", V(0), V(1)), 2), (C("u2", V(0), V(1)), 2), (C("u3", V(0), V(1)), 2), (C("u4", V(0), V(1)), 2), (C("u5", V(0), V(1)), 2)]):
-        for callno in (1, 2, 3):
-            for row in (0, 1, 2, 3):
-                reg = {"op": "register", "e": 1, "name": "nat", "arity": 1, "style": "explicit", "fid": "nat", "rows": rows,
-                       "raise": {"call": callno, "row": row}, "yields": bool((callno + row) % 2)}
-                steps = [[{"op": "load", "e": 1, "script": "P", "ow": True}], [reg],
-                         [{"op": "query", "e": 1, "r": 1, "goal": g, "qnv": qnv}]]
-                for _ in range(7):
-                    steps.append([{"op": "next", "r": 1}])
-                steps.append([{"op": "close", "r": 1, "how": "close"}])
-                # afterwards the engine must still work: the same query against facts only
-                steps.append([{"op": "solve", "e": 1, "r": 2, "goal": C("n", V(0)), "qnv": 1, "k": 0}])
-                scns.append({"scripts": {"P": script}, "steps": steps, "keys": []})
+    for rows in (rows_ng, rows_g):
+      for gi, (g, qnv) in enumerate([(C("u1", V(0), V(1)), 2), (C("u2", V(0), V(1)), 2), (C("u3", V(0), V(1)), 2), (C("u4", V(0), V(1)), 2), (C("u5", V(0), V(1)), 2)]):
+          for callno in (1, 2, 3):
+              for row in (0, 1, 2, 3):
+                  reg = {"op": "register", "e": 1, "name": "nat", "arity": 1, "style": "explicit", "fid": "nat", "rows": rows,
+                         "raise": {"call": callno, "row": row}, "yields": bool((callno + row) % 2)}
+                  steps = [[{"op": "load", "e": 1, "script": "P", "ow": True}], [reg],
+                           [{"op": "query", "e": 1, "r": 1, "goal": g, "qnv": qnv}]]
+                  for _ in range(7):
+                      steps.append([{"op": "next", "r": 1}])
+                  steps.append([{"op": "close", "r": 1, "how": "close"}])
+                  # afterwards the engine must still work: the same query against facts only
+                  steps.append([{"op": "solve", "e": 1, "r": 2, "goal": C("n", V(0)), "qnv": 1, "k": 0}])
+                  scns.append({"scripts": {"P": script}, "steps": steps, "keys": []})
     return scns
 
 
